@@ -50,6 +50,10 @@ CHECKS = [
       technique="deterministic simulation: same multi-party world as C02 on the presentation flow (holder clock for exp/nbf, challenge nonces, kid as fragment or full id, foreign-DID methods listed in the holder document, holder key rotation, stale resolution, Byzantine network); reference validator over recorded ground truth",
       text="Seeded search over presentation histories (kid as full id / '#fragment' / bare fragment, exp/nbf relative to the holder clock, audience, custom claims, hand-crafted claims with disagreeing duplicated values / out-of-range dates / non-DID issuer), holder key rotation and relationship changes, replay to other verifiers / nonces, delivery delay against short expiry, verifier clock stepped onto the boundary second, adversary re-signing and kid swaps, wrong holder document. Oracle: accepted => signature by a key of a method of the supplied holder-document version within scope, nonce equal, iss a DID equal to the document id, date bounds hold, duplicated values agree; otherwise Err with the identifying variant; on success presentation, audience, dates and custom claims equal those signed.",
       note="Soundness, error identification and fidelity are judged; completeness is not. For bit-flipped or truncated tokens PresentationJwsError or PresentationStructure is admitted."),
+ dict(id="C16", engine="world", level="exploration", design="§4.4, §5 C16, App. A.3",
+      technique="deterministic simulation: issuer, holders, adversary and verifier with skewed clocks; SD-JWT presentations (concealed claims, disclosures, KB-JWT) cross a network with bit flips and Byzantine disclosure / KB-JWT manipulation; reference validator over recorded signing events, own SHA-256 digests of disclosures and of the presented string, and the clock value",
+      text="Seeded search over concealed-claim subsets (leaf, array element, nested object with concealed child, decoys, _sd_alg), disclosed subsets, KB-JWTs (typ, sd_hash, nonce, aud, iat from the holder clock), holder key rotation with stale resolution, adversary moves (drop / duplicate / reorder / forge disclosure, KB-JWT by another key under the holder's kid, by another holder, wrong typ, stale KB-JWT, stripped KB-JWT) and bit flips anywhere in the ~-separated string, with KB options (nonce, aud, earliest/latest iat bounds or clock default, scope) drawn per call and the verifier clock stepped around iat. Oracle: validate_credential Ok => issuer signature valid under kid/scope/nonce rules, every supplied disclosure bound (transitively) to a digest in the signed claims and distinct, dates hold, and the returned credential equals the issuer's credential restricted to the disclosed claims; validate_key_binding_jwt Ok => typ, holder-document key, sd_hash over the string as received, nonce, aud and iat window all hold; every failure is an Err of the identifying variant, never Ok and never a panic.",
+      note="Soundness and error identification judged, completeness observed only. The dependency's typ constant (KeyBindingJwtClaims::KB_JWT_HEADER_TYP, which carries a leading space in sd-jwt-payload 0.2.1) is used as 'kb+jwt'. For bit-flipped presentations any error variant is admitted."),
 ]
 
 def main():
